@@ -16,7 +16,7 @@ P = Property('C18', 'other',
              'renaming; economies with different currencies do not interact) are bounded: generated economies solved and compared.',
              'contract-based deductive verification: VCs generated from the real AST (pyvc), z3/cvc5; bounded model comparison',
              design_ref='DESIGN.md section 6, C18')
-P.trust('contract of Sector.__init__ (assumed: arbitrary effect on the model, creates self.EquationBlock); contracts of AddVariable (C11), '
+P.trust('contract of Sector.__init__ (assumed: arbitrary effect on the model, creates self.EquationBlock); assumed contract of AddVariable (only its rejection clause is verified, C11), '
         'SetEquationRightHandSide (below, verified)', 'T-FMT: "%0.4f" % x is a function of x')
 P.not_decided.append('series-level invariance under renaming and embedding: bounded (dyn/C18.py); government classes take no good-name parameter '
                      '(their built-in DEM_GOOD / PRIM_BAL are outside "the names the constructors accept")')
